@@ -29,6 +29,7 @@ type cutStore struct {
 	mu      sync.Mutex
 	primary func() *pilosa.TranslateFile
 	cuts    []int64 // bytes after which the n-th stream is cut (consumed in order); -1 = no cut
+	eofs    []bool  // the n-th cut ends the stream cleanly (the primary closed it) instead of failing it
 	n       int
 	c       *simrt.Ctx
 }
@@ -48,6 +49,7 @@ func (s *cutStore) TranslateRowToString(index, field string, values uint64) (str
 
 type cutReader struct {
 	rc    io.ReadCloser
+	eof   bool
 	limit int64
 	read  int64
 	c     *simrt.Ctx
@@ -55,6 +57,10 @@ type cutReader struct {
 
 func (r *cutReader) Read(p []byte) (int, error) {
 	if r.limit >= 0 && r.read >= r.limit {
+		if r.eof {
+			r.c.Probe("fault:stream-ended")
+			return 0, io.EOF
+		}
 		r.c.Probe("fault:cut-stream")
 		return 0, fmt.Errorf("simulated: translate stream cut after %d bytes", r.read)
 	}
@@ -70,9 +76,9 @@ func (r *cutReader) Close() error { return r.rc.Close() }
 
 func (s *cutStore) Reader(ctx context.Context, off int64) (io.ReadCloser, error) {
 	s.mu.Lock()
-	limit := int64(-1)
+	limit, eof := int64(-1), false
 	if s.n < len(s.cuts) {
-		limit = s.cuts[s.n]
+		limit, eof = s.cuts[s.n], s.eofs[s.n]
 	}
 	s.n++
 	s.mu.Unlock()
@@ -84,7 +90,7 @@ func (s *cutStore) Reader(ctx context.Context, off int64) (io.ReadCloser, error)
 	if err != nil {
 		return nil, err
 	}
-	return &cutReader{rc: rc, limit: limit, c: s.c}, nil
+	return &cutReader{rc: rc, limit: limit, eof: eof, c: s.c}, nil
 }
 
 type c24 struct {
@@ -299,8 +305,9 @@ func execC24(c *simrt.Ctx) {
 	h := &c24{c: c, fwd: map[string]map[string]uint64{}, rev: map[string]map[uint64]string{}, mapSize: int(c.Plan.Knob("mapsize", 1<<22))}
 	h.cut = &cutStore{c: c, primary: func() *pilosa.TranslateFile { return h.prim }}
 	for _, f := range c.Plan.Faults {
-		if f.K == "cut" {
+		if f.K == "cut" || f.K == "cuteof" {
 			h.cut.cuts = append(h.cut.cuts, f.N)
+			h.cut.eofs = append(h.cut.eofs, f.K == "cuteof")
 		}
 	}
 	c.S.SetEager(true)
@@ -430,7 +437,7 @@ func genC24(r *simrt.Rand, tier string) *simrt.Plan {
 	// stream cuts: at entry boundaries and mid-entry (byte offsets into each successive stream)
 	nc := r.Intn(5)
 	for i := 0; i < nc; i++ {
-		p.Faults = append(p.Faults, simrt.Fault{K: "cut", N: simrt.Pick(r, int64(0), 1, 7, 13, 40, 100, 4095, 4096, 4097, int64(r.Intn(6000)))})
+		p.Faults = append(p.Faults, simrt.Fault{K: simrt.Pick(r, "cut", "cut", "cuteof"), N: simrt.Pick(r, int64(0), 1, 7, 13, 40, 100, 4095, 4096, 4097, int64(r.Intn(6000)))})
 	}
 	cfg := simrt.Config{Seed: int64(r.Uint64() >> 1)}
 	if r.Bool(0.4) {
